@@ -15,7 +15,15 @@ struct Traits<gmlc::libguarded::deferred_guarded<Cell, M>> {
     static W* make(bool enabled)
     {
         (void)enabled;
-        return new W();
+        // built from nothing, from an rvalue or from an lvalue of the payload
+        switch (gsim::knob("ctor", 0, 2)) {
+            case 1: return new W(Cell(0));
+            case 2: {
+                Cell init(0);
+                return new W(init);
+            }
+            default: return new W();
+        }
     }
 };
 }  // namespace gh
